@@ -1,13 +1,13 @@
 SPECIFICATION MCSpec
 CONSTANTS
-  Id = {1, 2, 3, 4, 5}
-  TopT = 12
+  Id = {1, 2, 3, 4}
+  TopT = 10
   InsTS = {0, 1, 2, 3}
   Walls = {0, 1, 2, 4}
   Modes = {"now", "top"}
-  MaxSteps = 7
-  MaxExt = 3
-  MaxSeq = 3
+  MaxSteps = 6
+  MaxExt = 2
+  MaxSeq = 2
   ClockMoves = FALSE
 INVARIANTS
   Export
